@@ -73,7 +73,7 @@ func (t *tr) storedObjs(stmts []ast.Stmt) map[types.Object]bool {
 						mark(x.Args[i])
 					}
 				}
-				if t.f != nil && t.f.externRead[t.src(x.Fun)] && len(x.Args) > 0 {
+				if t.f != nil && t.f.externRead[t.ck(x)] && len(x.Args) > 0 {
 					mark(x.Args[len(x.Args)-1])
 				}
 			}
@@ -85,7 +85,7 @@ func (t *tr) storedObjs(stmts []ast.Stmt) map[types.Object]bool {
 
 // destArg: index of the argument that a call writes into (-1: none)
 func (t *tr) destArg(c *ast.CallExpr) int {
-	name := t.src(c.Fun)
+	name := t.ck(c)
 	if name == "copy" {
 		return 0
 	}
